@@ -715,6 +715,15 @@ func elemField(v ssa.Value, cmp *ssa.Function) (int, string, bool) {
 	if !ok {
 		return 0, "", false
 	}
+	// through a copy of the element (a := rels[i])
+	if al, isAl := base.(*ssa.Alloc); isAl {
+		if sv := singleStore(al); sv != nil {
+			base = sv
+		}
+	}
+	if ld, isLd := base.(*ssa.UnOp); isLd && ld.Op == token.MUL {
+		base = ld.X
+	}
 	ia, ok := base.(*ssa.IndexAddr)
 	if !ok {
 		return 0, "", false
